@@ -1,5 +1,5 @@
 # replay of a bounded stand-in violation (C09/C10): re-run native/c09_engine.py
 import sys
-print("C10: creating the free parameter 'a' in a second program reset/aliased the bound parameter 'a' of the first program")
+print('C10: re(q) of a measured parameter with outcome (-0.25-1.5j) evaluates to (-0.25-1.5j), the function of the outcome is (-0.25+0j)')
 print('REPLAY-VIOLATION')
 sys.exit(1)
